@@ -33,7 +33,13 @@ def step_sig(hist, ej):
     if e == "reg":
         return "reg:%s:res=%s" % (decl_class(ev["d"]), ev.get("res"))
     if e == "race":
-        return "race:%s" % ",".join(sorted(set(ev.get("errs", []))))
+        ds, errs = ev.get("ds", []), ev.get("errs", [])
+        if any(d.get("p") == 9 and r == "ok" for d, r in zip(ds, errs)):
+            return "race:path=broken:res=ok"
+        won = [d.get("p") for d, r in zip(ds, errs) if r == "ok"]
+        if len(won) != len(set(won)):
+            return "race:two-winners-for-one-path"
+        return "race:%s" % ",".join(sorted(set(errs)))
     if e == "list":
         return "list:%s" % ev.get("via")
     if e == "bypath":
@@ -74,7 +80,7 @@ def generate(ctx, nsim, heavy=True):
 
     def gen(k):
         r = ctx.tlc("ApiEpGen", cfg_text=vlib.cfg_text(
-            constants={"MaxLen": plans[k], "Emit": True, "Heavy": heavy}),
+            constants={"MaxLen": plans[k], "Emit": True, "Heavy": heavy, "Dom": 1}),
             mode="simulate", num=per, depth=plans[k] + 3, seed=ctx.seed * 13 + k, timeout=1500, count=False)
         return r.emitted()
     scripts = []
@@ -135,9 +141,10 @@ def run(ctx):
     # 1. laws of the response table and of the registry on every reachable state of the small domain;
     #    runs beside the conformance pipeline
     def laws():
+        runs = [(2, 1)] if quick else [(2, 3), (3, 2)]     # (depth, declaration domain)
         return [ctx.tlc("ApiEpGen", cfg_text=vlib.cfg_text(
-            constants={"MaxLen": 2 if quick else 3, "Emit": False, "Heavy": False},
-            invariants=["Laws"], view="View"), workers=max(2, vlib.NCPU // 2), timeout=3000)]
+            constants={"MaxLen": depth, "Emit": False, "Heavy": False, "Dom": dom},
+            invariants=["Laws"], view="View"), workers=max(2, vlib.NCPU // 2), timeout=3000) for depth, dom in runs]
     from concurrent.futures import ThreadPoolExecutor
     pool = ThreadPoolExecutor(max_workers=1)
     laws_future = pool.submit(laws)
@@ -150,6 +157,7 @@ def run(ctx):
     # 3. replay against the real package, 4. TLC judges what was recorded
     ok = unex = nevents = 0
     stats = {}
+    repeated = []
     batch = 6000
     for b0 in range(0, len(scripts), batch):
         part = scripts[b0:b0 + batch]
@@ -163,6 +171,8 @@ def run(ctx):
                 t = e.get("e")
                 if t == "req":
                     key = "req:%s:%s" % (e["q"]["m"], e["ob"].get("st"))
+                    if e["ob"].get("retried"):
+                        repeated.append({"q": e["q"], "retried": e["ob"]["retried"], "stacks": e["ob"].get("stacks", "")[:6000]})
                 elif t == "reg":
                     key = "reg:%s" % e.get("res")
                 else:
@@ -185,6 +195,7 @@ def run(ctx):
                 "and two requests; distinct by content hash",
         "events_validated": nevents, "http_round_trips": nreq, "histories_unexamined_after_rejections": unex,
         "events_by_outcome": dict(sorted(stats.items())),
+        "round_trips_repeated_after_transport_error": len(repeated), "repeated_samples": repeated[:3],
         "samples": scripts[:2],
         "exhaustive": False,
     }, ["trace validation judges per step: the result of RegisterEndpoint, the exported registry (own path prefix), and for "
